@@ -103,6 +103,7 @@ def entry_text(e):
     accs, names, sq, attrs, extra, filler = e
     t = "<entry"
     if attrs == 1: t += ' dataset="Swiss-Prot" created="2000-05-30" modified="2019-07-03" version="106"'
+    elif attrs == 3: t += ' dataset="Swiss-Prot" created="2000-45-30" modified="2019-07-03" version="106"'   # an impossible date
     elif attrs >= 2: t += ' dataset="Swiss-Prot" created="2000-05-30" modified="2019-07-03" version="x"'
     t += ">\n"
     for a in accs: t += "<accession>" + a + "</accession>\n"
